@@ -65,4 +65,279 @@ theorem below_nondir {t : Tree} (hwf : WF t) {p q : Path} (hp : get t p ≠ some
   rw [hq, e]
   simp
 
+theorem isEmpty_eq_nil {b : Bytes} (h : b.isEmpty = true) : b = [] := by
+  cases b <;> simp_all
+
+theorem doPut_effect {t : Tree} {r : Req} {s : Nat} {t' : Tree} (h : doPut t r = (s, t')) (hs : Success s)
+    (hm : r.m = .put) : ∀ q, get t' q = rfcEffect (get t) r q := by
+  intro q
+  unfold doPut at h
+  dsimp only at h
+  repeat' split at h
+  all_goals (simp only [Prod.mk.injEq] at h; obtain ⟨rfl, rfl⟩ := h)
+  all_goals (first | (exact absurd hs (by decide)) | skip)
+  all_goals (simp only [rfcEffect, hm, get_set, putContent])
+  all_goals (
+    by_cases hq : q = r.src.segs
+    · subst hq
+      first
+      | (have hg := lstat_isfile (by assumption); simp_all [isEmpty_eq_nil]; done)
+      | (simp_all [isEmpty_eq_nil]; done)
+    · have hq' : r.src.segs ≠ q := fun e => hq e.symm
+      simp [hq, hq'])
+
+theorem doMkcol_effect {t : Tree} {r : Req} {s : Nat} {t' : Tree} (h : doMkcol t r = (s, t')) (hs : Success s)
+    (hm : r.m = .mkcol) : ∀ q, get t' q = rfcEffect (get t) r q := by
+  intro q
+  unfold doMkcol at h
+  repeat' split at h
+  all_goals (simp only [Prod.mk.injEq] at h; obtain ⟨rfl, rfl⟩ := h)
+  all_goals (first | (exact absurd hs (by decide)) | skip)
+  all_goals (simp only [rfcEffect, hm, get_set])
+  all_goals (
+    by_cases hq : q = r.src.segs
+    · subst hq; simp
+    · have hq' : r.src.segs ≠ q := fun e => hq e.symm
+      simp [hq, hq'])
+
+theorem doDelete_effect {t : Tree} {r : Req} {s : Nat} {t' : Tree} (h : doDelete t r = (s, t')) (hs : Success s)
+    (hm : r.m = .delete) : ∀ q, get t' q = rfcEffect (get t) r q := by
+  intro q
+  unfold doDelete at h
+  repeat' split at h
+  all_goals (simp only [Prod.mk.injEq] at h; obtain ⟨rfl, rfl⟩ := h)
+  all_goals (first | (exact absurd hs (by decide)) | skip)
+  all_goals (simp only [rfcEffect, hm, get_erase])
+
+/-- a file at `d` replaced / created, `src` untouched: the RFC effect of COPY for a file source -/
+theorem copy_file_effect {t : Tree} (hwf : WF t) {src d : Path} {c : Bytes} (hsrc : get t src = some (.file c))
+    (hd : get t d ≠ some .dir) (q : Path) :
+    get (set d (.file c) t) q = if under d q then get t (src ++ q.drop d.length) else get t q := by
+  rw [get_set]
+  by_cases hq : d = q
+  · subst hq
+    simp [under_refl, hsrc]
+  · simp only [hq, ↓reduceIte]
+    by_cases hu : under d q = true
+    · simp only [hu, ↓reduceIte]
+      rw [below_nondir hwf hd hu (fun e => hq e.symm)]
+      symm
+      apply hwf.no_child_of_nondir _ (by simp [hsrc])
+      intro e
+      apply hq
+      rw [under_split hu, e]
+      simp
+    · simp [hu]
+
+theorem move_file_effect {t : Tree} (hwf : WF t) {src d : Path} {c : Bytes} (hsrc : get t src = some (.file c))
+    (hd : get t d ≠ some .dir) (q : Path) :
+    get (set d (.file c) (erase src t)) q =
+      if under d q then get t (src ++ q.drop d.length) else if under src q then none else get t q := by
+  rw [get_set, get_erase]
+  by_cases hq : d = q
+  · subst hq
+    simp [under_refl, hsrc]
+  · simp only [hq, ↓reduceIte]
+    by_cases hu : under d q = true
+    · simp only [hu, ↓reduceIte]
+      have h1 : get t (src ++ List.drop d.length q) = none := by
+        apply hwf.no_child_of_nondir _ (by simp [hsrc])
+        intro e
+        apply hq
+        rw [under_split hu, e]
+        simp
+      rw [h1, below_nondir hwf hd hu (fun e => hq e.symm)]
+      simp
+    · simp [hu]
+
+theorem cmFile_effect {t : Tree} {r : Req} {move : Bool} {src dst : RPath} {c : Bytes} {s : Nat} {t' : Tree}
+    (hwf : WF t) (h : cmFile t r move src dst c = (s, t')) (hs : Success s)
+    (hsrc : get t src.segs = some (.file c)) (hnd : get t dst.segs ≠ some .dir) (q : Path) :
+    get t' q = if move then
+        (if under dst.segs q then get t (src.segs ++ q.drop dst.segs.length)
+         else if under src.segs q then none else get t q)
+      else (if under dst.segs q then get t (src.segs ++ q.drop dst.segs.length) else get t q) := by
+  have hl : (lstat t dst == St.isdir) = false := by
+    cases hb : (lstat t dst == St.isdir) with
+    | false => rfl
+    | true => exact absurd (lstat_isdir (by simpa using hb)) hnd
+  unfold cmFile cmDone at h
+  simp only [cmFileTarget, hl, Bool.false_and, Bool.false_eq_true, ↓reduceIte] at h
+  repeat' split at h
+  all_goals (simp only [Prod.mk.injEq] at h; obtain ⟨rfl, rfl⟩ := h)
+  all_goals (first | (exact absurd hs (by decide)) | skip)
+  all_goals (first
+    | (simp only [↓reduceIte]; exact move_file_effect hwf hsrc hnd q)
+    | (simp only [Bool.false_eq_true, ↓reduceIte]; exact copy_file_effect hwf hsrc hnd q)
+    | (rename_i hmv; simp only [hmv, ↓reduceIte]; exact move_file_effect hwf hsrc hnd q)
+    | (rename_i hmv; simp only [hmv, Bool.false_eq_true, ↓reduceIte]; exact copy_file_effect hwf hsrc hnd q)
+    | skip)
+
+theorem copymoveDir_effect {t : Tree} {move ow : Bool} {src dst : Path} {t' : Tree} {f : Bool}
+    (h : copymoveDir move ow src dst t = some (t', f))
+    (hconf : get t dst = some .dir → hasChild dst t = false) (q : Path) :
+    get t' q = if move then
+        (if under dst q then get t (src ++ q.drop dst.length) else if under src q then none else get t q)
+      else (if under dst q then get t (src ++ q.drop dst.length) else get t q) := by
+  unfold copymoveDir at h
+  split at h
+  · -- source and destination are the same path: nothing happens
+    rename_i heq
+    have heq : src = dst := by simpa using heq
+    subst heq
+    split at h
+    · simp only [Option.some.injEq, Prod.mk.injEq] at h
+      obtain ⟨rfl, rfl⟩ := h
+      by_cases hu : under src q = true
+      · have := (under_split hu).symm
+        cases move <;> simp [hu, this]
+      · cases move <;> simp [hu]
+    · simp at h
+  · repeat' split at h
+    all_goals (first | (simp at h; done) | skip)
+    all_goals (simp only [Option.some.injEq, Prod.mk.injEq] at h)
+    all_goals (first
+      | (obtain ⟨rfl, rfl⟩ := h; simp only [↓reduceIte]; exact get_moveTree _ _ _ _)
+      | (obtain ⟨rfl, rfl⟩ := h; simp only [Bool.false_eq_true, ↓reduceIte]; exact get_copyTree _ _ _ _)
+      | (obtain ⟨rfl, rfl⟩ := h; rename_i hmv; simp only [hmv, ↓reduceIte]; exact get_moveTree _ _ _ _)
+      | (obtain ⟨rfl, rfl⟩ := h; rename_i hmv; simp only [hmv, Bool.false_eq_true, ↓reduceIte]; exact get_copyTree _ _ _ _)
+      | skip)
+    -- the merge loop is only entered for a non-empty destination collection
+    all_goals (
+      rename_i hw _ hc
+      have := hconf (by simpa using walk_isdir hw)
+      simp [this] at hc)
+
+theorem cmCollection_effect {t : Tree} {r : Req} {move : Bool} {src dst : RPath} {s : Nat} {t' : Tree}
+    (hwf : WF t) (h : cmCollection t r move src dst = (s, t')) (hs : Success s) (h207 : s ≠ 207)
+    (hconf : get t dst.segs = some .dir → hasChild dst.segs t = false) (q : Path) :
+    get t' q = if move then
+        (if under dst.segs q then get t (src.segs ++ q.drop dst.segs.length)
+         else if under src.segs q then none else get t q)
+      else if r.depth = .zero then
+        (if q = dst.segs then some .dir else if under dst.segs q then none else get t q)
+      else (if under dst.segs q then get t (src.segs ++ q.drop dst.segs.length) else get t q) := by
+  unfold cmCollection at h
+  split at h
+  · simp only [Prod.mk.injEq] at h; obtain ⟨rfl, rfl⟩ := h; exact absurd hs (by decide)
+  split at h
+  · simp only [Prod.mk.injEq] at h; obtain ⟨rfl, rfl⟩ := h; exact absurd hs (by decide)
+  rename_i hone
+  split at h
+  · -- Depth: 0
+    rename_i hzero
+    have hz : r.depth = .zero := by simpa using hzero
+    split at h
+    · simp only [Prod.mk.injEq] at h; obtain ⟨rfl, rfl⟩ := h; exact absurd hs (by decide)
+    rename_i hmv
+    have hmv : move = false := by simpa using hmv
+    subst hmv
+    simp only [Bool.false_eq_true, ↓reduceIte, hz]
+    split at h
+    · -- destination collection exists (and is empty)
+      rename_i hl
+      simp only [Prod.mk.injEq] at h; obtain ⟨rfl, rfl⟩ := h
+      have hd := lstat_isdir hl
+      simp only at hd
+      by_cases hq : q = dst.segs
+      · simp [hq, hd]
+      · simp only [hq, ↓reduceIte]
+        by_cases hu : under dst.segs q = true
+        · simp only [hu, ↓reduceIte]
+          exact hasChild_false (hconf hd) hu hq
+        · simp [hu]
+    · simp only [Prod.mk.injEq] at h; obtain ⟨rfl, rfl⟩ := h; exact absurd hs (by decide)
+    · simp only [Prod.mk.injEq] at h; obtain ⟨rfl, rfl⟩ := h; exact absurd hs (by decide)
+    · rename_i hl
+      have hd := lstat_enoent hwf hl
+      simp only at hd
+      split at h
+      · simp only [Prod.mk.injEq] at h; obtain ⟨rfl, rfl⟩ := h
+        rw [get_set]
+        by_cases hq : q = dst.segs
+        · simp [hq]
+        · have hq' : dst.segs ≠ q := fun e => hq e.symm
+          simp only [hq, hq', ↓reduceIte]
+          by_cases hu : under dst.segs q = true
+          · simp only [hu, ↓reduceIte]
+            exact below_nondir hwf (by simp [hd]) hu hq
+          · simp [hu]
+      · simp only [Prod.mk.injEq] at h; obtain ⟨rfl, rfl⟩ := h; exact absurd hs (by decide)
+  · -- Depth: infinity
+    rename_i hzero
+    have hz : r.depth ≠ .zero := by simpa using hzero
+    split at h
+    · simp only [Prod.mk.injEq] at h; obtain ⟨rfl, rfl⟩ := h; exact absurd rfl h207
+    · rename_i t2 failed hcm
+      simp only [Prod.mk.injEq] at h
+      obtain ⟨hst, rfl⟩ := h
+      have := copymoveDir_effect hcm hconf q
+      rw [this]
+      cases move <;> simp [hz]
+
+theorem doCopyMove_effect {t : Tree} {r : Req} {s : Nat} {t' : Tree} (hwf : WF t) (hc : Conforming t r)
+    (h : doCopyMove t r = (s, t')) (hs : Success s) (h207 : s ≠ 207) (hm : r.m = .copy ∨ r.m = .move) :
+    ∀ q, get t' q = rfcEffect (get t) r q := by
+  intro q
+  unfold doCopyMove at h
+  split at h
+  · simp only [Prod.mk.injEq] at h; obtain ⟨rfl, rfl⟩ := h; exact absurd hs (by decide)
+  split at h
+  · simp only [Prod.mk.injEq] at h; obtain ⟨rfl, rfl⟩ := h; exact absurd hs (by decide)
+  split at h
+  · simp only [Prod.mk.injEq] at h; obtain ⟨rfl, rfl⟩ := h; exact absurd hs (by decide)
+  · simp only [Prod.mk.injEq] at h; obtain ⟨rfl, rfl⟩ := h
+    exact absurd hs (by unfold Success; omega)
+  rename_i dst hdst
+  have hdo : destOf r = dst.segs := by simp [destOf, hdst]
+  split at h
+  · simp only [Prod.mk.injEq] at h; obtain ⟨rfl, rfl⟩ := h; exact absurd hs (by decide)
+  split at h
+  · simp only [Prod.mk.injEq] at h; obtain ⟨rfl, rfl⟩ := h; exact absurd hs (by decide)
+  · simp only [Prod.mk.injEq] at h; obtain ⟨rfl, rfl⟩ := h; exact absurd hs (by decide)
+  · -- the source is a collection
+    rename_i hl
+    have hsrc := lstat_isdir hl
+    split at h
+    · simp only [Prod.mk.injEq] at h; obtain ⟨rfl, rfl⟩ := h; exact absurd hs (by decide)
+    have hconf : get t dst.segs = some .dir → hasChild dst.segs t = false := by
+      intro hd
+      have := hc hm (by rw [hdo]; exact hd)
+      rw [hdo] at this
+      exact this.2
+    have := cmCollection_effect hwf h hs h207 hconf q
+    rw [this]
+    rcases hm with hm | hm
+    · simp only [rfcEffect, hm, hdo, hsrc, true_and]
+      split <;> simp
+    · simp [rfcEffect, hm, hdo]
+  · -- the source is a file
+    rename_i c hl
+    have hsrc := lstat_isfile hl
+    split at h
+    · simp only [Prod.mk.injEq] at h; obtain ⟨rfl, rfl⟩ := h; exact absurd hs (by decide)
+    have hnd : get t dst.segs ≠ some .dir := by
+      intro hd
+      have := (hc hm (by rw [hdo]; exact hd)).1
+      rw [hsrc] at this
+      simp at this
+    have := cmFile_effect hwf h hs hsrc hnd q
+    rw [this]
+    rcases hm with hm | hm
+    · simp [rfcEffect, hm, hdo, hsrc]
+    · simp [rfcEffect, hm, hdo]
+
+/-- success (2xx other than 207 Multi-Status) means exactly the RFC 4918 effect -/
+theorem step_effect {t : Tree} {r : Req} (hwf : WF t) (hc : Conforming t r)
+    (hs : Success (step t r).1) (h207 : (step t r).1 ≠ 207) :
+    ∀ q, get (step t r).2 q = rfcEffect (get t) r q := by
+  unfold step at hs h207 ⊢
+  cases hm : r.m <;> simp only [hm] at hs h207 ⊢
+  · exact doPut_effect rfl hs hm
+  · exact doDelete_effect rfl hs hm
+  · exact doMkcol_effect rfl hs hm
+  · exact doCopyMove_effect hwf hc rfl hs h207 (Or.inl hm)
+  · exact doCopyMove_effect hwf hc rfl hs h207 (Or.inr hm)
+  · intro q; simp [rfcEffect, hm]
+
 end LtVerif.Dav
